@@ -36,13 +36,12 @@ import (
 	consensustypes "github.com/palomachain/paloma/v2/x/consensus/types"
 	evmtypes "github.com/palomachain/paloma/v2/x/evm/types"
 	schedulertypes "github.com/palomachain/paloma/v2/x/scheduler/types"
+	treasurytypes "github.com/palomachain/paloma/v2/x/treasury/types"
 
 	"verif/harness/chain"
 	"verif/harness/fw"
 	"verif/harness/world"
 )
-
-var dbgSeen = map[string]int{}
 
 const queuePrefix = "consensus-queue-signing-type-"
 
@@ -51,16 +50,17 @@ type idParams struct {
 	Chains int    `json:"chains"`
 	Steps  int    `json:"steps"`
 	Long   bool   `json:"long"` // run past height 10000 (scheduled reference-block messages)
+	LongSkips int `json:"long_skips"` // budget of 300-block skips (scheduled balances, pruning)
 }
 
 func idCases(tier string, seed int64, n int) []fw.Case {
 	var cs []fw.Case
-	steps := 70
+	steps, ls := 60, 2
 	if tier == "thorough" {
-		steps = 160
+		steps, ls = 150, 5
 	}
 	for i := 0; i < n; i++ {
-		p := idParams{Mode: "ids", Chains: 2 + i%2, Steps: steps, Long: i == 0}
+		p := idParams{Mode: "ids", Chains: 2 + i%2, Steps: steps, LongSkips: ls, Long: i == 0 && tier == "thorough"}
 		cs = append(cs, fw.MkCase(fmt.Sprintf("ids-%03d", i), seed*7000003+int64(i)+1, p))
 	}
 	return cs
@@ -131,10 +131,6 @@ func (w *idWorld) observe(what string) {
 	issued := map[uint64]string{}
 	for _, l := range w.c.Log.Drain() {
 		if l.Msg != "put message into consensus queue" {
-			if l.Level != "INFO" && dbgSeen[l.Msg] < 2 {
-				dbgSeen[l.Msg]++
-				fmt.Printf("DBG %s %s %.600v\n", l.Level, l.Msg, l.KV)
-			}
 			continue
 		}
 		var q string
@@ -297,8 +293,13 @@ func queueKind(q string) string {
 // ---------------------------------------------------------------------------------------------
 // driving the chain
 
+var tBlock, tObs time.Duration
+
 func (w *idWorld) block(what string) bool {
+	t0 := time.Now()
 	br := w.c.NextBlock()
+	tBlock += time.Since(t0)
+	defer func(t time.Time) { tObs += time.Since(t) }(time.Now())
 	if br.Panic != "" || br.Err != nil {
 		w.rec.Count("block_failures", 1)
 		w.note("BLOCK FAILED during %s: %v %.300s", what, br.Err, br.Panic)
@@ -474,12 +475,19 @@ func (w *idWorld) sign(ref string) {
 		return
 	}
 	for _, v := range w.vals {
-		m, err := world.MsgSign(w.c, v, q)
-		if err != nil || len(m.SignedMessages) == 0 {
+		todo, err := w.c.App.ConsensusKeeper.GetMessagesForSigning(w.c.Ctx(), q, v.ValAddr())
+		if err != nil || len(todo) == 0 {
 			continue
 		}
-		if len(m.SignedMessages) > 5 {
-			m.SignedMessages = m.SignedMessages[:5]
+		var ids []uint64
+		for _, t := range todo {
+			if len(ids) < 5 {
+				ids = append(ids, t.GetId())
+			}
+		}
+		m, err := world.MsgSign(w.c, v, q, ids...)
+		if err != nil || len(m.SignedMessages) == 0 {
+			continue
 		}
 		w.c.QueueTx(v, 0, m)
 	}
@@ -495,7 +503,22 @@ func (w *idWorld) errorEvidence(q string) {
 		return
 	}
 	m := msgs[w.r.Intn(len(msgs))]
-	proof, err := codectypes.NewAnyWithValue(&evmtypes.SmartContractExecutionErrorProof{ErrorMessage: "execution reverted"})
+	var pm gogoproto.Message = &evmtypes.SmartContractExecutionErrorProof{ErrorMessage: "execution reverted"}
+	switch queueKind(q) {
+	case "reference-block":
+		pm = &evmtypes.ReferenceBlockAttestationRes{BlockHeight: uint64(1000 + w.c.Height), BlockHash: "0x" + strings.Repeat("ef", 32)}
+	case "validators-balances":
+		res := &evmtypes.ValidatorBalancesAttestationRes{BlockHeight: uint64(1000 + w.c.Height)}
+		if cm, err := m.ConsensusMsg(w.c.App.AppCodec()); err == nil {
+			if req, ok := cm.(*evmtypes.ValidatorBalancesAttestation); ok {
+				for range req.HexAddresses {
+					res.Balances = append(res.Balances, "1000000000000000000")
+				}
+			}
+		}
+		pm = res
+	}
+	proof, err := codectypes.NewAnyWithValue(pm)
 	if err != nil {
 		return
 	}
@@ -503,7 +526,7 @@ func (w *idWorld) errorEvidence(q string) {
 		w.c.QueueTx(v, 0, &consensustypes.MsgAddEvidence{Proof: proof, MessageID: m.GetId(), QueueTypeName: q, Metadata: world.Meta(v)})
 	}
 	w.rec.Count("ops/error_evidence_rounds", 1)
-	w.note("error evidence for %s #%d", q, m.GetId())
+	w.note("evidence (%T) for %s #%d", pm, q, m.GetId())
 	w.block("error evidence " + q)
 }
 
@@ -608,6 +631,8 @@ func runIDs(c fw.Case, tier string, rec *fw.Recorder) {
 		return
 	}
 	w.observe("bootstrap")
+	w.gov(&treasurytypes.CommunityFundFeeProposal{Title: "cf", Description: "cf", Fee: "0.01"}, "gov community fee")
+	w.gov(&treasurytypes.SecurityFeeProposal{Title: "sf", Description: "sf", Fee: "0.01"}, "gov security fee")
 	for _, ref := range refs {
 		w.active[ref] = true
 		w.activate(ref)
@@ -619,6 +644,7 @@ func runIDs(c fw.Case, tier string, rec *fw.Recorder) {
 		return
 	}
 	lastKeepAlive := ch.Height
+	longSkips := p.LongSkips
 
 	for step := 0; step < p.Steps && rec.Violations() == 0; step++ {
 		w.stepNo = step
@@ -656,10 +682,12 @@ func runIDs(c fw.Case, tier string, rec *fw.Recorder) {
 			if len(live) > 1 {
 				w.removeChain(ref)
 			}
-		case x < 92:
+		case x < 92 && longSkips > 0:
+			longSkips--
 			w.skipTo(300, "to balances schedule")
-		case x < 95:
-			w.skip(320, "age messages")
+		case x < 96 && longSkips > 0:
+			longSkips--
+			w.skip(300, "age messages")
 			w.skipTo(50, "to prune")
 		default:
 			w.skip(1+r.Intn(30), "idle")
@@ -687,6 +715,7 @@ func runIDs(c fw.Case, tier string, rec *fw.Recorder) {
 		}
 		rec.Count("long_runs_past_10000", 1)
 	}
+	fmt.Printf("TIMING blocks=%v observe(+rest)=%v\n", tBlock, tObs)
 	rec.Count("blocks", ch.Height)
 	rec.Count("ids_high_water_sum", int64(w.hw))
 	rec.Sample(map[string]any{"case": c.Name, "chains": refs, "blocks": ch.Height, "highest_id": w.hw, "history_head": tail(w.history, 25)})
